@@ -47,8 +47,9 @@ class SingleValueRawTokenModel(base.RawTokenModel, RWValue[_V]):
 
     @value.setter
     def value(self, value: _V) -> None:
+        raw_text = self._format_value(value)  # may refuse the value: do it before changing anything
+        self._update_raw_text(raw_text)
         self._value = value
-        self._update_raw_text(self._format_value(value))
 
     @classmethod
     @abc.abstractmethod
